@@ -637,10 +637,63 @@ def empty_body_programs():
             yield hdr + [{"t": "qop", "op": dict(call, qs=[["q", 0], ["q", 1]])}]
 
 
+def body_statement_programs():
+    """statements of a gate body, well-formed and malformed in every way the standard names (operand that is not a
+    formal qubit — also when it is only passed on to another user gate that ignores it —, repeated qubit, wrong number
+    of parameters / qubits of a built-in, qelib1 or user gate, foreign identifier, function, power), each in a
+    definition that is CALLED and in one that is NEVER called"""
+    inner = {"t": "gate", "n": "inner", "ps": [], "qs": ["u", "v"], "body": [{"o": "call", "n": "x", "ps": [], "qs": ["u"]}]}
+    P, L = ["id", "p"], ["id", "lam"]
+    stmts = [
+        {"o": "call", "n": "x", "ps": [], "qs": ["nosuch"]},
+        {"o": "call", "n": "cx", "ps": [], "qs": ["a", "nosuch"]},
+        {"o": "U", "e": [P, ["lit", "0"], ["pi"]], "q": "nosuch"},
+        {"o": "CX", "a": "a", "b": "nosuch"},
+        {"o": "call", "n": "inner", "ps": [], "qs": ["a", "nosuch"]},
+        {"o": "call", "n": "cx", "ps": [], "qs": ["a", "a"]},
+        {"o": "CX", "a": "b", "b": "b"},
+        {"o": "call", "n": "inner", "ps": [], "qs": ["a", "a"]},
+        {"o": "call", "n": "rx", "ps": [], "qs": ["a"]},
+        {"o": "call", "n": "x", "ps": [P], "qs": ["a"]},
+        {"o": "call", "n": "U", "ps": [P, ["lit", "0"]], "qs": ["a"]},
+        {"o": "call", "n": "inner", "ps": [P], "qs": ["a", "b"]},
+        {"o": "call", "n": "inner", "ps": [], "qs": ["a"]},
+        {"o": "call", "n": "rx", "ps": [["*", P, ["id", "z"]]], "qs": ["a"]},
+        {"o": "call", "n": "rx", "ps": [["fn", "sin", P]], "qs": ["a"]},
+        {"o": "call", "n": "rx", "ps": [["^", ["lit", "2"], P]], "qs": ["a"]},
+        {"o": "call", "n": "rx", "ps": [["*", ["^", P, ["lit", "2"]], ["id", "z"]]], "qs": ["a"]},
+        {"o": "call", "n": "u2", "ps": [P, ["id", "z"]], "qs": ["a"]},
+        {"o": "U", "e": [["id", "z"], ["lit", "0"], ["pi"]], "q": "a"},
+        {"o": "call", "n": "cx", "ps": [], "qs": ["a", "b", "a"]},
+        # well-formed
+        {"o": "call", "n": "rx", "ps": [["*", ["lit", "0.001"], P]], "qs": ["a"]},
+        {"o": "call", "n": "rx", "ps": [["/", ["neg", ["+", P, L]], ["lit", "2"]]], "qs": ["b"]},
+        {"o": "call", "n": "inner", "ps": [], "qs": ["b", "a"]},
+        {"o": "barrier", "qs": ["a", "b"]},
+    ]
+    hdr = [{"t": "version"}, {"t": "incl", "f": "qelib1.inc"}, {"t": "qreg", "n": "q", "k": 3}, inner]
+    x0 = {"t": "qop", "op": {"o": "call", "n": "x", "ps": [], "qs": [["q", 0]]}}
+    for st in stmts:
+        for pos in (0, 1):
+            body = [{"o": "call", "n": "h", "ps": [], "qs": ["b"]}]
+            body.insert(pos, st)
+            g = {"t": "gate", "n": "g", "ps": ["p", "lam"], "qs": ["a", "b"], "body": body}
+            yield hdr + [g, x0]                                         # never called
+            yield hdr + [g, {"t": "qop", "op": {"o": "call", "n": "g", "ps": [["pi"], ["lit", "0.5"]], "qs": [["q", 2], ["q", 0]]}}]
+            outer = {"t": "gate", "n": "outer", "ps": [], "qs": ["c"], "body": [{"o": "call", "n": "x", "ps": [], "qs": ["c"]}]}
+            yield hdr + [g, outer, {"t": "qop", "op": {"o": "call", "n": "outer", "ps": [], "qs": [["q", None]]}}]
+
+
 def tree_variant():
     """which repairs of the importer the checkout under verification has (read from its source with `ast`)"""
-    i = qasm_tables.import_tables()
-    return {k: i[k] for k in ("if_skip", "if_rev", "barrier_checked", "empty_reg_ok", "body_dup", "empty_body_ok")}
+    keys = ("if_skip", "if_rev", "barrier_checked", "empty_reg_ok", "body_dup", "empty_body_ok", "body_checked")
+    try:
+        i = qasm_tables.import_tables()
+    except Exception:
+        # source not recognised (the check is broken anyway): the oracle then evaluates the property strictly,
+        # tolerating none of the recorded finding classes
+        return {k: True for k in keys}
+    return {k: i[k] for k in keys}
 
 
 MUTATIONS = ["undeclared_reg", "undeclared_gate", "index_range", "repeated_qubit", "arity_param", "arity_qubit",
@@ -1047,6 +1100,10 @@ class C04(PropertyCheck):
         "QipVerif.C04.import_rejects_bad_barrier",
         "QipVerif.C04.import_rejects_body_barrier",
         "QipVerif.C04.import_barrier_witnesses",
+        "QipVerif.C04.import_rejects_body_statement",
+        "QipVerif.C04.body_check_operands",
+        "QipVerif.C04.import_body_witnesses",
+        "QipVerif.C04.body_unchecked_counterexample",
         "QipVerif.C04.import_empty_register_witnesses",
         "QipVerif.C04.import_rejects_arity_witnesses",
         "QipVerif.C04.import_rejects_qubit_witnesses",
@@ -1183,6 +1240,7 @@ class C04(PropertyCheck):
         self._run(ctx, res, list(empty_register_programs()), ["stream=empty-registers"])
         self._run(ctx, res, list(if_value_programs()), ["stream=if-values"])
         self._run(ctx, res, list(empty_body_programs()), ["stream=empty-bodies"])
+        self._run(ctx, res, list(body_statement_programs()), ["stream=body-statements"])
         self._tok_progs = [p for p in uniq[::97]][:8]
         res.notes.append("exhaustive: every operand-shape tuple over {q[0], q[last], q, r[0], r[last], r} for 2-operand gates "
                          "(cx, CX, cz, cu1, user gate) on registers of sizes 1-3 x 1-3 and for 3-operand gates (ccx, user gate), "
@@ -1190,7 +1248,8 @@ class C04(PropertyCheck):
                          "wrong kind on both sides); barrier operand tuples; every operand tuple containing an EMPTY register "
                          "for 1-3-operand gates, measure and barrier; `if(c==k)` for registers of 0-3 bits and every k up to "
                          "2^n+2 on accepted and on refused operations; gate definitions with an empty / barrier-only body (called, "
-                         "broadcast, conditioned, nested, never called)")
+                         "broadcast, conditioned, nested, never called); every kind of malformed body statement in a called and in a "
+                         "never-called definition")
         res.exhaustive = True
         res.notes.append("systematic: every qelib1 gate, U and CX x {indexed, whole-register broadcast, if on a 1-bit "
                          "register, if on a 2-bit register}; then generated programs and their malformed variants")
@@ -1255,6 +1314,8 @@ class C04(PropertyCheck):
             extra += [p for p in barrier_shape_programs()][::7]
         if variant["empty_body_ok"]:
             extra += list(empty_body_programs())
+        if variant["body_checked"]:
+            extra += list(body_statement_programs())
         rng.shuffle(extra)
         for p in extra[: (len(extra) if ctx.thorough else 50)]:
             yield p
